@@ -183,7 +183,7 @@ def generate(seed, tier):
         kind = r.choice(INIT_MUT) if msg <= 2 else r.choice(AUTH_MUT)
         sc['mitm'] = {'msg': msg, 'kind': kind, 'seed': r.randrange(2 ** 31)}
     elif family == 'cred':
-        how = r.choice(['psk', 'psk_other_side', 'rsa_key', 'method', 'id_data', 'id_type', 'id_other_conn'])
+        how = r.choice(['psk', 'psk_other_side', 'rsa_key', 'method', 'id_data', 'id_type', 'id_type_same_data', 'id_type_same_data', 'id_other_conn'])
         side, other = (cb, ca) if r.random() < 0.5 else (ca, cb)
         auth = sc['meta']['auth']
         if how in ('psk', 'psk_other_side'):
@@ -208,6 +208,11 @@ def generate(seed, tier):
             side['peer_auth']['id'] = 'mallory.example.org' if sc['meta']['idkind'] != 'fqdn' else 'alicf.example.org'
         elif how == 'id_type':
             side['peer_auth']['id'] = 'someone@example.org' if sc['meta']['idkind'] != 'email' else 'alice.example.org'
+        elif how == 'id_type_same_data':
+            # the peer presents an identity whose octets equal the configured ones but whose type differs:
+            # FQDN "abcd" against ID_IPV4_ADDR 97.98.99.100 (= b"abcd"); it holds the right credential, so AUTH itself verifies
+            other['my_auth']['id'] = 'abcd'
+            side['peer_auth']['id'] = '97.98.99.100'
         elif how == 'id_other_conn':
             side['peer_auth']['id'] = side['my_auth'].get('id', 'me.example.org') + '.other'
         sc['cred'] = how
